@@ -779,8 +779,9 @@ class DBUDSServer(UDSServer):
                 response = service.UDSResponse.parse_dynamic(unhexlify(response_pdu))
                 return response
 
-            logger.info("Reset ECU due to missing response")
-            self.state.reset()
+            # No response was recorded. The recording client did not change its view of the
+            # ECU state either, so the following rows are still logged with the current state.
+            logger.info("No response recorded for this request")
 
         return None
 
